@@ -119,6 +119,48 @@ CLAIMS.update({
     },
 })
 
+CLAIMS.update({
+    'C13': {
+        'text': 'Decides three structural clauses over the whole package: '
+                '(UNORDERED-ITER) a dataflow analysis finds every hash-'
+                'ordered value (set/frozenset constructions, set algebra, '
+                'set-valued build_input registries, verspec SpecifierSets, '
+                'attributes/returns/parameters carrying them) and requires '
+                'every iteration sink to be order-free, sorted with an '
+                'injective key, or on a reasoned allow-list of auxiliary '
+                'files; (NONDET-API) no time/random/uuid/pid/id()/hash()/'
+                'tempfile call in content-producing modules (GUID map '
+                'allow-listed); (CLI-ABSPATH) every path argument of the '
+                'driver goes through the absolute-ising argparse types. '
+                'Necessary conditions for determinism under all hash seeds '
+                'and invocation contexts; byte equality is not decided.',
+        'note': _TB + 'Not decided: byte equality of outputs; os.listdir '
+                'order. The unordered analysis is a may-analysis with '
+                'definite sources only (no alias analysis of containers '
+                'passed through unresolved calls).',
+        'technique': 'inter-procedural unordered-value dataflow (sources/'
+                     'sinks/sanitisers) + API who-may-call scan',
+    },
+    'C16': {
+        'text': 'Decides: (OPTION-EXHAUSTIVE) every option class defined in '
+                'options.py is translated by the cc compiler and/or linker '
+                'flag functions on the side its options.py section says, '
+                'unknown options raise, every OptimizeValue/WarningValue '
+                'member has a translation; (FLAG-GRAMMAR) every flag literal '
+                'tools/cc/* can emit is a word of the GCC/Clang driver '
+                'option grammar frozen in sa/tables.py; (FLAG-MERGE) target '
+                'flags are [global] + per-target in both _get_flags. A flag '
+                'outside the grammar is rejected by every gcc/clang, so this '
+                'is a necessary condition for all option values at once.',
+        'note': _TB + 'Not decided: acceptance by the compiler actually '
+                'detected, effect on the program, msvc/jvm translations. F8 '
+                '(-Osize) repaired by a fix: commit.',
+        'technique': 'exhaustiveness of isinstance dispatch vs. option '
+                     'registry + flag-literal extraction matched against an '
+                     'option grammar',
+    },
+})
+
 _PENDING = 'check not built yet in this session (design in DESIGN.md)'
 
 NOT_APPLICABLE = {
